@@ -568,6 +568,154 @@ def oracle(run, deep):
                     report_violation(run, "oracle", t, why)
     overlapping_parses(run, found)
     custom_engines(run, found)
+    factory_histories(run, found, deep)
+    process_histories(run, found, deep)
+
+
+def operator_texts(syms):
+    """texts that use the given operator symbols in every position"""
+    out = []
+    for s_ in syms:
+        out += [s_, s_ + " 1", "1 " + s_, "1 " + s_ + " 2", "(" + s_ + " 1)", "[" + s_ + " 1]", "f(" + s_ + " $)", "f($ " + s_ + ")",
+                s_ + " " + s_ + " " + s_, "not " + s_, s_ + " not 1", "- " + s_ + " 1", s_ + " -1", "$." + s_, "$ " + s_ + " null",
+                "f(" + s_ + " => 1)", "a " + s_ + " b and not c", s_ + " $.a", s_ + " true", "a -> " + s_ + " 1", "x in [1] or y " + s_ + " z",
+                s_ + "(1)", "{a => " + s_ + " 1}", "1 " + s_ + " " + s_ + " 2", s_ + " 'a' " + s_]
+    return out
+
+
+FIXED_FACTORY_HISTORIES = [
+    # (base kind, calls of insert_operator (existing, existing_is_binary, new, type, new_group, alias)): an engine is
+    # created before the first call and after every call
+    ("default", [("in", True, "is", "BINARY_LEFT_ASSOCIATIVE", False, None)]),
+    ("default", [("not", False, "isnt", "PREFIX_UNARY", False, None), ("in", True, "within", "BINARY_LEFT_ASSOCIATIVE", False, None)]),
+    ("default", [(".", True, "!", "SUFFIX_UNARY", True, None), ("*", True, "**", "BINARY_RIGHT_ASSOCIATIVE", False, None)]),
+    ("legacy", [("or", True, "xor", "BINARY_LEFT_ASSOCIATIVE", False, None), ("not", False, "~", "PREFIX_UNARY", False, None)]),
+    ("default+delegates", [(None, False, "exists", "SUFFIX_UNARY", True, None), ("+", True, "<>", "BINARY_LEFT_ASSOCIATIVE", True, None)]),
+    ("nokw", [("and", True, "nand", "BINARY_LEFT_ASSOCIATIVE", False, None), ("-", False, "neg", "PREFIX_UNARY", False, None)]),
+]
+
+
+def factory_histories(run, found, deep):
+    """Histories on ONE factory object: create(), insert_operator(...), create(), ...: every engine handed out must be total
+    (C03_total_any_table: for the table the factory held when the engine was created).  Random call sequences come from
+    the C02 history generator (word and symbol operators in all roles)."""
+    from props import c02
+    from yaql.language import exceptions as X
+    from yaql.language import factory as F
+    rng = run.rng
+    hists = list(FIXED_FACTORY_HISTORIES)
+    for _ in range(run.n(10, 120) * (2 if deep else 1)):
+        base = rng.choice(["default"] * 4 + ["legacy", "default+delegates", "nokw", "kw:="])
+        try:
+            calls = c02.gen_calls(rng, c02.spec_base(base), rng.randrange(1, 5), rng.random() < 0.2)
+        except Exception:
+            continue
+        hists.append((base, calls))
+    base_texts = ["1 + 2", "not true", "a in b", "f(1, 2)", "$.a", "[1]", "{a => 1}", "x", "1 2", "-1", "a and b or c", "#"]
+    for base, calls in hists:
+        try:
+            f = c02.make_factory(base)
+        except Exception:
+            continue
+        engines = []
+        syms = []
+
+        def create(step):
+            try:
+                engines.append((step, list(syms), f.create()))
+            except (X.YaqlException, ValueError):
+                pass          # an operator table the factory rejects: no engine is handed out
+            except Exception as e:
+                if "hist-create" not in found:
+                    found.add("hist-create")
+                    run.note("factory history: create() raised %r after %r" % (e, calls[:step]))
+
+        create(0)
+        for i, c in enumerate(calls):
+            try:
+                f.insert_operator(c[0], c[1], c[2], getattr(F.OperatorType, c[3]), c[4], c[5] if len(c) > 5 else None)
+                syms.append(c[2])
+            except ValueError:
+                continue
+            create(i + 1)
+        all_syms = [c[2] for c in calls]
+        texts = base_texts + operator_texts(all_syms)
+        for step, own, eng in engines:
+            for t in texts:
+                res, e = lc.with_watchdog(lambda: eng(t), 5.0)
+                run.count("oracle:factory-history")
+                why = None
+                if e is not None:
+                    if isinstance(e, lc.Timeout):
+                        why = "parsing did not return within 5 s"
+                    elif not isinstance(e, X.YaqlParsingException):
+                        why = "an exception that is not a YaqlParsingException escapes the parser: %s" % lc.qualname(e)
+                    else:
+                        pos = getattr(e, "position", None)
+                        if pos is not None and not (isinstance(pos, int) and 0 <= pos < len(t)):
+                            why = "reported error position %r is outside the text of length %d" % (pos, len(t))
+                if why and "factory-history" not in found:
+                    found.add("factory-history")
+                    run.case(("factory-history", base, tuple(map(tuple, calls)), step, t), nontrivial=True)
+                    run.fail("violation", "C03 predicate fails on an engine created along a history of one factory "
+                                          "(create / insert_operator / create): %s" % why,
+                             {"factory_history": {"base": base, "calls": [list(c) for c in calls], "engine_created_after_call": step,
+                                                  "text": t},
+                              "how_to_read": "one factory object; an engine is created before the first insert_operator call and "
+                                             "after every call; the failing engine is the one created after `engine_created_after_call` calls",
+                              "theorems": ["C03_total_any_table", "C03_lex_total_any_table"]})
+        run.case(("factory-history", base, len(calls)), nontrivial=True)
+
+
+def process_histories(run, found, deep):
+    """Engines of DIFFERENT factories with different word operators created in one process, in every rotation of the order
+    of creation (fresh interpreter per order); the words of all operator tables seen in the process are then used as plain
+    identifiers, member names, keyword-argument names ... on every engine."""
+    import concurrent.futures
+    import subprocess
+    import sys
+    import multiengine as me
+    specs = me.ENGINES
+    n = len(specs)
+    words = me.pool(specs)
+    orders = [[(i + k) % n for k in range(n)] for i in range(n)]
+    if not run.quick or deep:
+        orders += [list(reversed(o)) for o in orders]
+    script = os.path.join(HERE, "harness", "multiengine.py")
+
+    def one(order):
+        scn = {"mode": "totality", "engines": specs, "order": order, "words": words}
+        p = subprocess.run([sys.executable, "-W", "ignore", script], input=json.dumps(scn), capture_output=True, text=True, timeout=300)
+        if p.returncode != 0:
+            return scn, [{"engine": "?", "text": "?", "why": "harness process failed: " + p.stderr[-300:], "phase": "?",
+                          "engines_created_so_far": []}]
+        return scn, json.loads(p.stdout)
+
+    with concurrent.futures.ThreadPoolExecutor(max_workers=6) as ex:
+        results = list(ex.map(one, orders))
+    for scn, fails in results:
+        run.case(("process-history", tuple(scn["order"])), nontrivial=True)
+        run.count("oracle:process-history:" + ("ok" if not fails else "fail"))
+        if fails and "process-history" not in found:
+            found.add("process-history")
+            f = fails[0]
+            # smallest history: one other engine created first, then the failing one
+            small = scn
+            for j in scn["order"]:
+                if j == f.get("engine_index"):
+                    continue
+                cand = {"mode": "totality", "engines": specs, "order": [j, f["engine_index"]], "words": [], "texts": [f["text"]]}
+                p = subprocess.run([sys.executable, "-W", "ignore", script], input=json.dumps(cand), capture_output=True, text=True, timeout=120)
+                if p.returncode == 0 and json.loads(p.stdout):
+                    small, f = cand, json.loads(p.stdout)[0]
+                    break
+            run.fail("violation", "C03 predicate fails on an engine after engines of other factories were created in the same "
+                                  "process: %s" % f["why"],
+                     {"process_history": small, "failing_step": f,
+                      "how_to_read": "engines are created in `order` inside one fresh interpreter; each is tested as created and "
+                                     "again after all exist",
+                      "theorems": ["C03_total_any_table"]})
+    run.note("oracle: %d process histories of %d engines in fresh interpreters" % (len(orders), n))
 
 
 def custom_engines(run, found):
@@ -680,6 +828,31 @@ def replay(run, data):
     if not run.proof["ok"]:
         return False
     d = data["data"]
+    if "process_history" in d:
+        import subprocess
+        p = subprocess.run([sys.executable, "-W", "ignore", os.path.join(HERE, "harness", "multiengine.py")],
+                           input=json.dumps(d["process_history"]), capture_output=True, text=True, timeout=300)
+        return p.returncode == 0 and not json.loads(p.stdout)
+    if "factory_history" in d:
+        from props import c02
+        from yaql.language import factory as F
+        h = d["factory_history"]
+        f = c02.make_factory(h["base"])
+        eng = f.create()
+        for i, c in enumerate(h["calls"]):
+            try:
+                f.insert_operator(c[0], c[1], c[2], getattr(F.OperatorType, c[3]), c[4], c[5] if len(c) > 5 else None)
+            except ValueError:
+                continue
+            e2 = f.create()
+            if i + 1 <= h["engine_created_after_call"]:
+                eng = e2
+        saved = lc._engine
+        lc._engine = eng
+        try:
+            return predicate(h["text"], lc.run_engine(h["text"])) is None
+        finally:
+            lc._engine = saved
     text = lc.decompress(d["input"])
     toks, end, out = observe(text)
     if predicate(text, out):
